@@ -57,7 +57,16 @@ func (x *Exec) libCall(st *State, q string, recv *Value, args []*Value, sig *typ
 	case q == "math/bits.OnesCount8" || q == "math/bits.OnesCount64" || q == "math/bits.OnesCount32" || q == "math/bits.OnesCount":
 		v := args[0].scalar()
 		if v.Sort.Kind != SBV {
-			return []*Value{scalarV(intT, x.b.App("bits.onescount", is, v))}, true
+			r := x.b.App("bits.onescount", is, v)
+			wmax := int64(64)
+			switch q {
+			case "math/bits.OnesCount8":
+				wmax = 8
+			case "math/bits.OnesCount32":
+				wmax = 32
+			}
+			x.assume(st, x.b.And(x.b.Le(x.b.Num(big.NewInt(0), is), r, true), x.b.Le(r, x.b.Num(big.NewInt(wmax), is), true)))
+			return []*Value{scalarV(intT, r)}, true
 		}
 		w := v.Sort.Width
 		sum := x.b.BV(0, 64)
